@@ -59,7 +59,7 @@ func init() {
 	Plans["C03"].Prefixes = append(Plans["C03"].Prefixes, "H_C12_spellings")
 	Plans["C04"].Prefixes = append(Plans["C04"].Prefixes, "H_C12_spellings", "H_C06_history", "H_C08_text", "H_C16_long")
 	Plans["C02"].Prefixes = append(Plans["C02"].Prefixes, "H_C05_int64", "H_C11_padwide")
-	Plans["C14"].Prefixes = append(Plans["C14"].Prefixes, "H_C05_int64")
+	Plans["C14"].Prefixes = append(Plans["C14"].Prefixes, "H_C05_int64", "H_C02_tinyfrac")
 	Plans["C05"].Prefixes = append(Plans["C05"].Prefixes, "H_C02_tonumber")
 	Plans["C18"].Prefixes = append(Plans["C18"].Prefixes, "H_C02_tonumber")
 	Plans["C17"].Prefixes = append(Plans["C17"].Prefixes, "H_C01_wide")
